@@ -182,6 +182,10 @@ val chk_evol : graph -> load -> plan -> plan -> bool
 
 val bound : graph -> plan -> nat -> nat list
 
+val apply_load_gen :
+  bool -> graph -> (nat -> load option) -> nat -> plan -> (plan * nat list)
+  res
+
 val apply_load :
   graph -> (nat -> load option) -> nat -> plan -> (plan * nat list) res
 
@@ -233,6 +237,14 @@ val token_ok : config -> plan -> bool
 val can_start : config -> state -> bool
 
 val in_build : state -> bool
+
+type ef_type =
+  nat -> graph -> config -> nat list -> (nat -> load option) -> nat -> bool
+  -> bool -> plan -> plan res
+
+val step_res_gen :
+  ef_type -> graph -> config -> (nat -> load option) -> state -> event ->
+  state res
 
 val step_res :
   graph -> config -> (nat -> load option) -> state -> event -> state res
